@@ -308,6 +308,13 @@ def table_case(draw, tier="quick"):
         for _ in range(size):
             k1 = draw(st.sampled_from(keys1)) if nby == 2 else keys1[0]
             rows.append({"g": [k0, k1], "lab": draw(st.sampled_from(glabels)), "seq": draw(st.sampled_from(gseqs))})
+    if draw(st.integers(0, 2)) == 0:
+        # two different (label, sequence) rows whose texts coincide when written one after the other: ('L1', 'A' + s) / ('L1A', s)
+        s0 = draw(st.sampled_from(seqpool))
+        g = rows[0]["g"]
+        for _ in range(draw(st.integers(1, 2))):
+            rows.append({"g": list(g), "lab": "L1", "seq": "A" + s0})
+            rows.append({"g": list(g), "lab": "L1A", "seq": s0})
     if len(rows) < 2:
         rows.append(dict(rows[0]))
     rows = list(draw(st.permutations(rows)))
